@@ -16,10 +16,18 @@ DoApply == /\ pc = "apply" /\ Len(plan) < MaxCalls + 1
                                  /\ plan' = Append(plan, m)
            /\ UNCHANGED pc
 Finish == pc = "apply" /\ Len(plan) > 1 /\ pc' = "done" /\ UNCHANGED <<est, data, res, plan>>
-Next == DoFit \/ DoApply \/ Finish
+\* after the plan: the object is fitted again on other data (fingerprint 8; fitted state 12; results 200 + method),
+\* applied, and compared with a fresh estimator fitted on that data only
+DoFit2 == /\ pc = "done" /\ Fit2([op |-> "fit2", m |-> "", efp |-> 12, dfp |-> 8, d2 |-> 8, rfp |-> 0])
+          /\ pc' = "refitted" /\ UNCHANGED plan
+DoApply2 == /\ pc = "refitted"
+            /\ \E m \in Methods, who \in {"apply", "fresh"} :
+                   Apply([op |-> who, m |-> m, efp |-> 12, dfp |-> 8, rfp |-> 200 + MethodNo(m)])
+            /\ UNCHANGED <<plan, pc>>
+Next == DoFit \/ DoApply \/ Finish \/ DoFit2 \/ DoApply2
 Spec == Init /\ [][Next]_vars
-Inv_EstimatorStable == est \in {0, 11}
-Inv_DataStable == data = 7
-Inv_ResultsRepeat == \A m \in Methods : res[m] \in {0, 100 + MethodNo(m)}
+Inv_EstimatorStable == est \in (IF pc = "refitted" THEN {12} ELSE {0, 11})
+Inv_DataStable == data = (IF pc = "refitted" THEN 8 ELSE 7)
+Inv_ResultsRepeat == \A m \in Methods : res[m] \in (IF pc = "refitted" THEN {0, 200 + MethodNo(m)} ELSE {0, 100 + MethodNo(m)})
 Emit == (pc = "done" /\ EmitVectors) => PrintT(ToJson([plan |-> plan]))
 =============================================================================
